@@ -986,7 +986,7 @@ fn run(args: Args) {
     let mut jd = Judge { per_key: std::collections::HashMap::new() };
     let mut rng = Rng::new(args.seed);
     let corpus = load_corpus(&mut rep.notes);
-    let (n_mut, n_soup, n_chars, n_lit, big) = if thorough { (150_000, 120_000, 60_000, 120_000, 20_000) } else { (6_000, 5_000, 2_500, 6_000, 10_000) };
+    let (n_mut, n_soup, n_chars, n_lit, big) = if thorough { (150_000, 120_000, 60_000, 120_000, 20_000) } else { (12_000, 10_000, 5_000, 12_000, 10_000) };
 
     // ---------------- family A inputs
     let mut inputs: Vec<(String, String)> = vec![]; // (class, source)
@@ -998,6 +998,20 @@ fn run(args: Args) {
         for part in p.split(';') {
             if !part.trim().is_empty() && part.len() < p.len() {
                 inputs.push(("corpus-part".into(), part.to_string()));
+            }
+        }
+    }
+    // minimised past failures (corpus/C15/*.txt: `lex <cps>` lines) run on every check
+    if let Ok(rd) = std::fs::read_dir("/verif/corpus/C15") {
+        let mut paths: Vec<_> = rd.filter_map(|e| e.ok()).map(|e| e.path()).collect();
+        paths.sort();
+        for p in paths {
+            if let Ok(t) = std::fs::read_to_string(&p) {
+                for line in t.lines() {
+                    if let Some(c) = line.strip_prefix("lex ") {
+                        inputs.push(("regress".into(), uncps(c.trim())));
+                    }
+                }
             }
         }
     }
@@ -1154,7 +1168,7 @@ fn run(args: Args) {
 
     // ---------------- family C: format-string bodies
     {
-        let n_fmt = if thorough { 60_000 } else { 3_000 };
+        let n_fmt = if thorough { 60_000 } else { 5_000 };
         let mut bodies: Vec<String> = FMT_PIECES.iter().map(|p| p.replace('\\', "")).collect();
         for _ in 0..n_fmt {
             bodies.push(gen_fmt_body(&mut rng));
@@ -1191,7 +1205,7 @@ fn run(args: Args) {
                 jd.judge(&mut rep, "fmt-scan", &input, &rust, &imp, &rust);
             }
         }
-        rep.notes.push(format!("format bodies whose embedded expression does not parse (not compared beyond no-panic): {}", inner));
+        rep.notes.push(format!("format bodies whose embedded expression does not parse (scanner parts not comparable; compared through the parser model as Ok/Err): {}", inner));
     }
 
     // ---------------- family D: Unicode class tables
